@@ -342,6 +342,8 @@ class World:
         outcome, res = self._invoke(fn, args, kwargs)
         tag = 'ok' if outcome == 'ok' else 'raise:' + type(res).__name__
         self.cstat(key, outcome)
+        self.stats.setdefault('call_shapes', set()).add(
+            (key, tuple(_shape_of(a) for a in args), tuple(sorted(kwargs)), outcome))
         if outcome == 'raise' and 'debug_exc' in self.stats and not rec.get('fault'):
             self.stats['debug_exc'].setdefault(key, []).append(
                 (type(res).__name__, str(res)[:150], rec.get('args'), rec.get('kwargs')))
@@ -462,6 +464,18 @@ class World:
                 n += 1
         self.probe('f_reorder_calls', n)
         return {'r': 'ok', 'n': n}
+
+
+def _shape_of(a):
+    if isinstance(a, np.ndarray):
+        lay = 'C' if a.flags['C_CONTIGUOUS'] else ('F' if a.flags['F_CONTIGUOUS'] else 'S')
+        return 'nd%s%s%s%s' % (list(a.shape), a.dtype.char, lay, 'v' if a.base is not None else '')
+    if is_sm_object(a):
+        n = _length(a)
+        return '%s#%s' % (type(a).__name__, n if n < 3 else 'n')
+    if isinstance(a, (list, tuple)):
+        return '%s%d' % (type(a).__name__, len(a))
+    return type(a).__name__
 
 
 def _first_diff(a, b, which):
@@ -894,5 +908,6 @@ def summarise(js, raw):
         'callables_never_reached': never,
         'callables_without_template': sorted(e.key for e in C['entries'] if not e.from_table),
         'call_outcome_pairs': shapes,
+        'call_shapes': js.get('call_shapes', 0),
         'harness_call_guard_fired': js.get('harness_call_guard_fired', 0),
     }
